@@ -63,8 +63,52 @@ def class_traits(repo, cid):
     return out
 
 
+def swallowed_value_errors(ctx, rule):
+    """ConfigBackedParser.parse_known_args wraps the whole "read configuration, install it as defaults" step in
+    `except ValueError: pass` (meant for: this program has no configuration section).  Any OTHER ValueError raised on that
+    path makes the parser silently run with no configuration at all -- flags from config files, including the Ignore
+    mapping and the ignorable categories, are dropped without a message."""
+    import ast as _ast
+    from ..util import calls_in as _calls
+    repo, cg = ctx.repo, ctx.cg
+    pk = repo.func('nbdime.args:ConfigBackedParser.parse_known_args')
+    tries = [n for n in _ast.walk(pk) if isinstance(n, _ast.Try) and any(h.type is not None and 'ValueError' in _ast.unparse(h.type) and
+                                                                          all(isinstance(b, _ast.Pass) for b in h.body) for h in n.handlers)]
+    if not tries:
+        ctx.inst(rule, 'nbdime.args:ConfigBackedParser.parse_known_args', 'no `except ValueError: pass` around the configuration step', True,
+                 'errors while building the configuration are not swallowed', pk, nontrivial=False)
+        return
+    roots = set()
+    for st in tries[0].body:
+        for c in _calls(st):
+            for t in cg.resolve(c.func, pk):
+                if t[0] == 'func':
+                    roots.add(t[1])
+    reach = cg.reachable(sorted(roots))
+    ALLOWED = {
+        'nbdime.config:build_config': 'entrypoint',      # unknown program name: the documented reason for the swallow
+        'nbdime.diffing.notebooks:set_notebook_diff_ignores': None,   # runs after the defaults were installed
+    }
+    n = 0
+    for fid in sorted(reach):
+        if not fid.startswith(('nbdime.config', 'nbdime.args', 'nbdime.diffing.notebooks')):
+            continue
+        fn = repo.functions[fid]
+        for r in walk_no_nested(fn):
+            if isinstance(r, _ast.Raise) and r.exc is not None and 'ValueError' in _ast.unparse(r.exc)[:30]:
+                n += 1
+                ok = fid in ALLOWED and (ALLOWED[fid] is None or ALLOWED[fid] in _ast.unparse(r.exc) or
+                                         any(ALLOWED[fid] in _ast.unparse(t) for t, pol in cond_guards(CFG(fn), r)))
+                ctx.inst(rule, fid, repo.norm(r)[:110], ok,
+                         'the documented reason for the swallow / raised after the defaults were installed' if ok else
+                         'this ValueError is raised while the configuration is read and is swallowed by `except ValueError: pass` in '
+                         'ConfigBackedParser.parse_known_args: the whole configuration (incl. Ignore and the ignorable categories) is silently dropped', r)
+    if n == 0:
+        raise AnalysisError('no ValueError raise found on the configuration path (anchor moved)')
+
 def run(ctx):
     repo, cg = ctx.repo, ctx.cg
+    ctx.rule('R19.8', 'no ValueError other than "unknown program name" can be raised while the configuration is read: the parser swallows ValueError and would silently run unconfigured', floor=2)
     ctx.rule('R19.7', 'name binding: every global name a function refers to is bound at module level or builtin, and every local is assigned on every path before it is read', floor=2)
     ctx.rule('R19.6', 'every exactly resolved call binds against its callee\'s signature (no missing/unknown/surplus argument on any arm)', floor=1)
     ctx.rule('R19.1', 'documented section membership = class hierarchy (section S listed for entry point E <=> S in MRO(E))', floor=7)
@@ -167,8 +211,14 @@ def run(ctx):
     if not mloops:
         raise AnalysisError('build_config: loop over the MRO not found')
     # the update that layers a section read from disk: recursive_update(config, <disk>[<c>.__name__], ...)
+    def _section_expr(e):
+        if any(isinstance(x, ast.Subscript) and isinstance(x.slice, ast.Attribute) and x.slice.attr == '__name__' for x in ast.walk(e)):
+            return True
+        if isinstance(e, ast.Name):
+            return any(_section_expr(v) for v, k, st in bdefs.get(e.id, []) if k == 'assign' and not isinstance(v, ast.Name))
+        return False
     disk_ups = [c for c in calls_in(bc, nested=False) if ('func', CFGM + ':recursive_update') in cg.resolve(c.func, bc) and len(c.args) > 1 and
-                any(isinstance(x, ast.Subscript) and isinstance(x.slice, ast.Attribute) and x.slice.attr == '__name__' for x in ast.walk(c.args[1]))]
+                _section_expr(c.args[1])]
     if not disk_ups:
         raise AnalysisError('build_config: no update from a disk section named after the class')
 
@@ -198,7 +248,7 @@ def run(ctx):
         src = c.args[1] if len(c.args) > 1 else None
         if src is not None and any(isinstance(x, ast.Call) and isinstance(x.func, ast.Attribute) and x.func.attr == 'configured_traits' for x in ast.walk(src)):
             kinds.append(('defaults', c.lineno))
-        elif src is not None and any(isinstance(x, ast.Subscript) and isinstance(x.slice, ast.Attribute) and x.slice.attr == '__name__' for x in ast.walk(src)):
+        elif src is not None and _section_expr(src):
             kinds.append(('disk', c.lineno))
     ok = [k for k, _ in sorted(kinds, key=lambda t: t[1])] == ['defaults', 'disk']
     ctx.inst('R19.3', CFGM + ':build_config', 'per class: %s' % [k for k, _ in sorted(kinds, key=lambda t: t[1])], ok,
@@ -333,3 +383,4 @@ def run(ctx):
     call_compat(ctx, 'R19.6', ['nbdime.config', 'nbdime.args'], 'option resolution aborts')
     from ..names import name_binding
     name_binding(ctx, 'R19.7', ['nbdime.config', 'nbdime.args'])
+    swallowed_value_errors(ctx, 'R19.8')
